@@ -101,6 +101,20 @@ CLAIMED = {
         "outside the range, t_min/t_max formulas.",
    note=TB + "; K=1..3 quick, ..6 thorough; N=K+1..K+3 control points; vector-space groups; rounding of the compile-time basis constants is absorbed by a tolerance box.",
    ref="DESIGN 4/C13", technique="symbolic execution of LLVM IR (fptosi forked by solver enumeration) + SMT"),
+ "C15": dict(
+   text="Inductive-step check instead of histories: for every state-producing operation (compose, inverse, exp, rplus) and group, symbolic execution from an ARBITRARY pre-state on "
+        "the constraint manifold with canonical sign; z3 decides on every return path that the unit-norm constraint is preserved exactly (closed-form paths) or within 1e-14 "
+        "(series paths), that q_w >= 0, and that every symbolic divisor is non-zero. boost::odeint adaptor: scale_sum (arities 2..7) equals x (+) sum alpha_i a_i and one step of "
+        "euler / rk4 / cash-karp54 / dopri5 with constant body velocity equals x (+) h v, term by term against the real rplus.",
+   note=TB + "; the (n+1)*1e-14 floating-point drift of 1e5-step chains is a sampling statement outside the claim; exactness of each operation is C01/C02; adaptive steppers outside.",
+   ref="DESIGN 4/C15", technique="symbolic execution of LLVM IR (one inductive step from an arbitrary valid state) + SMT"),
+ "C17": dict(
+   text="Bounded symbolic check: SE_K_3<1> against SE3 and SE_K_3<2> against Galilei(tau=s=0) operation by operation (both implementations executed symbolically, outputs equal "
+        "on consistent paths); SO2 angle()/angle_cw()/angle_ccw() ranges and congruence modulo 2pi by z3 over atan2 quadrant axioms (every unit complex number incl. the branch "
+        "cuts); lift/project, C1 = scaling*so2, rot_x/y/z = exp, normalising quaternion/complex constructors (unit, parallel, canonical hemisphere), isometry and "
+        "quaternion<->matrix round trips through Eigen's real conversion code.",
+   note=TB + "; Euler-angle round trip only differentially validated; series-path differences between two correct Taylor truncations are reported undecided unless reproduced natively.",
+   ref="DESIGN 4/C17", technique="symbolic execution of LLVM IR + SMT (atan2 axioms, identity obligations), native replay"),
 }
 NA = {}
 checks = []
